@@ -16,7 +16,7 @@ from typing import (
 from ..exc import ExtensionError, SDLError
 from ..lang import ast as _ast, parse
 from ..schema import NamedType, ObjectType, Schema
-from .ast_type_builder import ASTTypeBuilder
+from .ast_type_builder import _DEFAULT_TYPES_MAP, ASTTypeBuilder
 from .schema_directives import TSchemaDirective, apply_schema_directives
 
 
@@ -302,6 +302,10 @@ def _collect_definitions(
             name = node.name.value
             if name in types:
                 raise SDLError("Duplicate type %s" % name, [node])
+            if name in _DEFAULT_TYPES_MAP:
+                raise SDLError(
+                    "Type %s conflicts with a specified type" % name, [node]
+                )
             types[name] = node
 
         elif isinstance(node, _ast.DirectiveDefinition):
